@@ -243,9 +243,27 @@ def _deep_root_wallets(rng, tier):
                     yield "w_bypath xkey:%s %s" % (sx(xk), sx(pth)), "deep-root-wallet" + ("-watch" if watch else "")
 
 
+def _same_text_across_entry_points(rng, tier):
+    """the SAME path text handed to the parser, to by_path of a watch-only wallet (which must refuse a hardened level),
+    to the parser again, to by_path of a private wallet, to the parser again — in one process: what one entry point did
+    with a text (also when it refused it) must not change what the text means afterwards"""
+    for _ in range(6 if tier == "quick" else 80):
+        comps = [rng.choice(["44'", "0'", "1h", "84'", "0", "7", "2147483647"]) for _ in range(rng.randint(1, 5))]
+        if not any(c.endswith(("'", "h")) for c in comps):
+            comps[rng.randrange(len(comps))] = "0'"
+        for root in ("m", "M"):
+            s_ = root + "/" + "/".join(comps)
+            yield "path_parse " + sx(s_), "same-text-parse"
+            yield "w_bypath xkey:%s %s" % (sx(XPUB), sx(s_)), "same-text-watch-refusal"
+            yield "path_parse " + sx(s_), "same-text-parse-after-refusal"
+            yield "w_bypath xkey:%s %s" % (sx(XPRV), sx(s_)), "same-text-private"
+            yield "path_parse " + sx(s_), "same-text-parse-after-lookup"
+
+
 def cases(rng, tier):
     from . import extra
     yield from _cases_core(rng, tier)
+    yield from _same_text_across_entry_points(rng, tier)
     yield from _collision_wallets(rng, tier)
     yield from _deep_root_wallets(rng, tier)
     yield from extra.cases_for('paths', rng, tier)
